@@ -508,6 +508,11 @@ class ExprMixin(object):
     def compare_sym(self, st, sym, a, b, node, module, flip):
         if flip:
             a, b = b, a
+        for x, y, fl in ((a, b, False), (b, a, True)):
+            if isinstance(x, App) and x.op == "ite":
+                l = self.compare_sym(st, sym, x.args[1], y, node, module, fl)
+                r = self.compare_sym(st, sym, x.args[2], y, node, module, fl)
+                return self.mk_ite(st, x.args[0], l, r)
         fo = st.folder()
         if is_discrete(a) and is_discrete(b) and fo.can_fold([a, b]):
             numeric = is_numeric(a) and is_numeric(b)
